@@ -166,9 +166,14 @@ class Outq:
     def put(self, m):
         self.ctl.point('put')
         # the message really crosses a pipe: it is pickled (outside the tracer: nothing symbolic is inside a message)
-        mm = _deep_realize(m)          # (CrossHair may hand out proxy strings for repr(): pickle needs the plain values)
         with untraced():
-            _pickle.dumps(mm)
+            try:
+                _pickle.dumps(m)
+            except ValueError as exc:
+                # under CrossHair repr() may hand out proxy strings that hold solver terms ("ctypes objects containing
+                # pointers cannot be pickled"): an artefact of the tracer, not of the message - any other failure counts
+                if 'ctypes' not in str(exc):
+                    raise
         self.msgs.append(m)
         self.ctl.point('put-done')
 
